@@ -954,6 +954,9 @@ def truth(p: Path, v: Any, label: str = "truth") -> bool:
     return p.branch(t, label)
 
 
+OBJ_LEN_HOOK: Any = None   # set by the interpreter: calls the object's __len__ (real code or contract)
+
+
 def truth_term(p: Path, v: Any) -> Any:
     if isinstance(v, SBool):
         return v.t
@@ -970,8 +973,13 @@ def truth_term(p: Path, v: Any) -> Any:
     if isinstance(v, SStr):
         return v.t != p.strc("")
     if isinstance(v, SObj):
-        if hasattr(v.cls, "__len__") or hasattr(v.cls, "__bool__"):
-            raise Unsupported(f"truthiness of {v.cls.__name__} with __len__/__bool__")
+        if hasattr(v.cls, "__bool__"):
+            raise Unsupported(f"truthiness of {v.cls.__name__} with __bool__")
+        if hasattr(v.cls, "__len__"):
+            if OBJ_LEN_HOOK is None:
+                raise Unsupported(f"truthiness of {v.cls.__name__} with __len__")
+            n = OBJ_LEN_HOOK(v)     # Python: an object with __len__ is true iff its length is not zero
+            return (n != 0) if isinstance(n, int) else int_term(n) != 0
         return True
     if is_sym(v):
         raise Unsupported(f"truthiness of {v!r}")
